@@ -23,54 +23,52 @@ import CifModel.Props.C19
   Pure level: `C19_list_history` (any sequence of insert / set / remove / get on a list is the sequence on `List V`, index errors
   included), `C19_nested_update_exact` (an update through a path changes exactly that sub-value).
 
-  Fuel: the pointer-following heap functions (`cleanVal`, `cloneH`) take fuel; for every history there is a bound `N`
-  (`Hist.bound`, computed from the pure run) such that every fuel ≥ N gives the same, represented, result.
+  Fuel: the pointer-following heap functions (`cleanVal`, `cloneH`) take fuel; `stepH` computes it from the heap (`fuelOf h =
+  3 · h.next + 9`), which covers every represented value because a footprint lists each block once and lies below the bump
+  pointer (Lemmas/HeapHistFuel.lean) — the history theorems carry no fuel hypothesis.
 -/
 namespace CifModel
 open Model.Heap Model.Hist
 
-/-- **one operation, from any represented state** — any `HOp`, any fuel that covers the values present (and, for `set_item`
-    on an existing key / `bld`, the intermediate value): heap and pure interpretation both succeed in related states, or both
-    leave the state as it is.  The aliased cases are instances: `.lset r i (some sr)` / `.mset r key nk (some sr)` / `.cln sr dst`
-    with `sr` a member of the target, an ancestor of it, or the target itself. -/
-theorem C19_step_heap (s : HState) (p : PState) (F : Root → List Nat) (inv : RepS [] s p F) (fuel : Nat) (hf : Fits fuel p)
-    (op : HOp) (hm : Fits fuel (midP p op)) :
+/-- **one operation, from any represented state** — any `HOp`, any fuel that is at least the fuel `stepH` computes from the heap:
+    heap and pure interpretation both succeed in related states, or both leave the state as it is.  The aliased cases are
+    instances: `.lset r i (some sr)` / `.mset r key nk (some sr)` / `.cln sr dst` with `sr` a member of the target, an ancestor of
+    it, or the target itself. -/
+theorem C19_step_heap (s : HState) (p : PState) (F : Root → List Nat) (inv : RepS [] s p F) (fuel : Nat)
+    (hfuel : fuelOf s.h ≤ fuel) (op : HOp) :
     (∃ s' p' F', stepH? fuel s op = some s' ∧ stepP? p op = some p' ∧ RepS [] s' p' F')
     ∨ (stepH? fuel s op = none ∧ stepP? p op = none) :=
-  step_sim inv fuel hf op hm
+  step_sim inv fuel hfuel op
 
 /-- **C19_history_heap** — every state reachable from the empty heap by any operation history is well-formed and represents
     exactly the pure state reached by the same history -/
-theorem C19_history_heap (ops : List HOp) :
-    ∃ N, ∀ fuel, N ≤ fuel → ∃ F, RepS [] (runH fuel ops HState.empty) (runP ops PState.empty) F :=
-  ⟨bound ops PState.empty, fun fuel h => run_RepS fuel ops HState.empty PState.empty (fun _ => []) RepS.init h⟩
+theorem C19_history_heap (ops : List HOp) : ∃ F, RepS [] (runH ops HState.empty) (runP ops PState.empty) F :=
+  run_RepS ops HState.empty PState.empty (fun _ => []) RepS.init
 
 /-- what `RepS` says, spelled out for the state after a history: the heap is well-formed; every occupied slot holds the
     address of an object (free-standing value, detached entry, packet) that represents the slot's pure value with footprint
     `F r`, an empty slot is empty on both sides; footprints of different slots share no block; every live block lies in the
-    footprint of some slot -/
+    footprint of some slot; and no footprint lists a block twice -/
 theorem C19_history_owned (ops : List HOp) :
-    ∃ N, ∀ fuel, N ≤ fuel → ∃ F : Root → List Nat,
-      (runH fuel ops HState.empty).h.WF
-      ∧ (∀ r, match (runH fuel ops HState.empty).slot r, (runP ops PState.empty).get r with
+    ∃ F : Root → List Nat,
+      (runH ops HState.empty).h.WF
+      ∧ (∀ r, match (runH ops HState.empty).slot r, (runP ops PState.empty).get r with
           | none, none => F r = []
-          | some a, some v => ∃ hv G, getHV (runH fuel ops HState.empty).h a = some hv
-              ∧ Rep (runH fuel ops HState.empty).h hv v G ∧ a ∉ G ∧ ∀ x, x ∈ F r ↔ (x = a ∨ x ∈ G)
+          | some a, some v => ∃ hv G, getHV (runH ops HState.empty).h a = some hv
+              ∧ Rep (runH ops HState.empty).h hv v G ∧ a ∉ G ∧ G.Nodup ∧ ∀ x, x ∈ F r ↔ (x = a ∨ x ∈ G)
           | _, _ => False)
       ∧ (∀ r r', r ≠ r' → ∀ a, a ∈ F r → a ∉ F r')
-      ∧ (∀ a, ((runH fuel ops HState.empty).h.cell a).isSome = true → ∃ r, a ∈ F r) := by
-  obtain ⟨N, hN⟩ := C19_history_heap ops
-  refine ⟨N, fun fuel h => ?_⟩
-  obtain ⟨F, inv⟩ := hN fuel h
+      ∧ (∀ a, ((runH ops HState.empty).h.cell a).isSome = true → ∃ r, a ∈ F r) := by
+  obtain ⟨F, inv⟩ := C19_history_heap ops
   refine ⟨F, inv.wf, ?_, inv.dis, ?_⟩
   · intro r
     have := inv.rel r
-    cases hs : (runH fuel ops HState.empty).slot r <;> cases hp : (runP ops PState.empty).get r <;> rw [hs, hp] at this
+    cases hs : (runH ops HState.empty).slot r <;> cases hp : (runP ops PState.empty).get r <;> rw [hs, hp] at this
     · exact this
     · exact this
     · exact this
     · obtain ⟨hv, G, h1, _, h3, h4, h5⟩ := this
-      exact ⟨hv, G, h1, h3, h4, h5⟩
+      exact ⟨hv, G, h1, h3, h4, Rep_nodup _ _ _ _ h3, h5⟩
   · intro a ha
     rcases inv.cov a ha with h1 | h1
     · exact h1
@@ -79,15 +77,13 @@ theorem C19_history_owned (ops : List HOp) :
 /-- **C19_history_release** — after any history, releasing every slot (`cif_value_free` / `cif_packet_free`) touches live blocks
     only and leaves no block live: every block allocated during the history has been freed exactly once -/
 theorem C19_history_release (ops : List HOp) :
-    ∃ N, ∀ fuel, N ≤ fuel →
-      ∃ h', releaseAll fuel (runH fuel ops HState.empty) = some h' ∧ ∀ a, h'.cell a = none := by
-  refine ⟨bound ops PState.empty, fun fuel h => ?_⟩
-  obtain ⟨F, inv⟩ := run_RepS fuel ops HState.empty PState.empty (fun _ => []) RepS.init h
-  exact releaseAll_spec inv fuel (fits_of_needMax inv.okP (Nat.le_trans (bound_last ops PState.empty) h))
+    ∃ h', releaseAll (runH ops HState.empty) = some h' ∧ ∀ a, h'.cell a = none := by
+  obtain ⟨F, inv⟩ := C19_history_heap ops
+  exact releaseAll_spec inv
 
 /-- the states the driver of family `valheap` prints its observations from (`traceH`) are the `runH` states of the prefixes -/
-theorem C19_history_trace (fuel : Nat) (ops : List HOp) (s : HState) :
-    traceH fuel ops s = (List.range ops.length).map (fun n => runH fuel (ops.take (n + 1)) s) := by
+theorem C19_history_trace (ops : List HOp) (s : HState) :
+    traceH ops s = (List.range ops.length).map (fun n => runH (ops.take (n + 1)) s) := by
   induction ops generalizing s with
   | nil => rfl
   | cons op ops ih =>
@@ -168,8 +164,6 @@ end Pure
 -- a history with nesting, aliasing (source inside the target; the target itself) and transfers between slots: the bound is
 -- a concrete number and the pure run is the expected state
 example : RepS [] HState.empty PState.empty (fun _ => []) := RepS.init
-example : bound [.bld 0 (.lst [.lst [.chr true (a!"x")]]), .lset ⟨.val 0, []⟩ 0 (some ⟨.val 0, [.idx 0, .idx 0]⟩),
-    .cln ⟨.val 0, []⟩ ⟨.val 0, [.idx 0]⟩, .lrem ⟨.val 0, []⟩ 0 (some 1), .free 0] PState.empty ≤ 100 := by decide
 example : ((runP [.bld 0 (.lst [.lst [.chr true (a!"x")]]), .lset ⟨.val 0, []⟩ 0 (some ⟨.val 0, [.idx 0, .idx 0]⟩)]
     PState.empty).get (.val 0)).isSome = true := by decide
 example : (Model.Value.runListS [.unk] [.ins 1 none, .rem 5, .get 0]).2.map (·.1) = [0, 73, 0] := by decide
